@@ -59,12 +59,76 @@ pub const INNERS: &[(&str, &str)] = &[
   ("tuple", "(a, b)"), ("not", "!a"), ("neg", "-a"),
   ("mul", "a * b"), ("div", "a / b"), ("mod", "a % b"), ("plus", "a + b"), ("minus", "a - b"), ("concat", "a :: b"),
   ("lt", "a < b"), ("le", "a <= b"), ("gt", "a > b"), ("ge", "a >= b"), ("eq", "a == b"), ("ne", "a != b"), ("and", "a && b"), ("or", "a || b"),
+  ("plus.rfield", "a + b.foo"), ("plus.lfield", "a.foo + b"), ("mul.rfield", "a * b.foo"), ("concat.rfield", "a :: b.foo"), ("lt.rfield", "a < b.foo"), ("and.rfield", "a && b.foo"), ("neg.field", "-a.foo"), ("not.call", "!f(a)"),
   ("field", "a.foo"), ("method", "a.bar(b)"), ("method.targs", "a.bar<int, Str>(b)"), ("call", "f(a)"), ("call0", "f()"), ("static", "Foo.make(a)"), ("static.targs", "Foo.make<int>()"),
   ("if", "if c { a } else { b }"), ("iflet", "if let Some(v) = o { v } else { b }"), ("elseif", "if c { a } else if d { b } else { e }"),
   ("match", "match m { A -> a, B(w) -> w }"), ("match.or", "match m { A | C -> a, B(_) -> b }"), ("match.nested", "match m { B(D(w, _)) -> w, _ -> b }"), ("match.struct", "match m { { f1, f2 as g } -> f1 }"),
   ("lambda", "(p) -> p"), ("lambda.typed", "(p: int) -> p"), ("lambda0", "() -> a"), ("lambda.fnty", "(p: (int) -> bool) -> p"),
   ("block", "{ let y = a; y }"), ("block.empty", "{  }"), ("block.stmt", "{ f(a); }"), ("block.let.pat", "{ let (y1, y2) = a; let { f1, f2 as g } = b; let Some(s) = c; y1 }"),
 ];
+
+/// number of systematic depth-3 nestings (outer, middle, inner, two paren flags)
+pub fn nest3_count() -> usize {
+  OUTERS.len() * OUTERS.len() * INNERS.len() * 4
+}
+
+/// the i-th systematic depth-3 nesting: inner inside middle inside outer
+pub fn nest3(i: usize, rng: &mut Rng) -> (String, String) {
+  let (p1, p2) = (i % 2 == 1, (i / 2) % 2 == 1);
+  let j = i / 4;
+  let o1 = &OUTERS[j % OUTERS.len()];
+  let o2 = &OUTERS[(j / OUTERS.len()) % OUTERS.len()];
+  let n = &INNERS[(j / OUTERS.len() / OUTERS.len()) % INNERS.len()];
+  let mid = instantiate(o2.1, n.1, p2, rng);
+  (format!("{}<{}{}<{}{}", o1.0, o2.0, if p1 { ":paren" } else { "" }, n.0, if p2 { ":paren" } else { "" }), instantiate(o1.1, &mid, p1, rng))
+}
+
+const BINOPS: &[&str] = &["*", "/", "%", "+", "-", "::", "<", "<=", ">", ">=", "==", "!=", "&&", "||"];
+const LEAVES: &[&str] = &["a", "b", "1", "\"s\"", "a.foo", "this.x", "f(a)", "a.m(b)", "Foo.k", "-1", "true", "a.bar<int>(b)", "this", "Foo.make<int>()", "x.y.z"];
+
+/// random tree over binary / unary / postfix operators, written fully parenthesised (so the
+/// text pins the tree without any knowledge of precedence); returns (shape label, text)
+pub fn opchain(rng: &mut Rng, depth: usize) -> (String, String) {
+  if depth == 0 || rng.chance(1, 5) {
+    let l = *rng.pick(LEAVES);
+    return ("leaf".into(), l.to_string());
+  }
+  match rng.below(12) {
+    0..=7 => {
+      let op = *rng.pick(BINOPS);
+      let (ll, l) = opchain(rng, depth - 1);
+      let (rl, r) = opchain(rng, depth - 1);
+      (format!("({ll}{op}{rl})"), format!("({l} {op} {r})"))
+    }
+    8 => {
+      let op = if rng.bool() { "!" } else { "-" };
+      let (l, e) = opchain(rng, depth - 1);
+      (format!("{op}{l}"), format!("({op}{e})"))
+    }
+    9 => {
+      let (l, e) = opchain(rng, depth - 1);
+      match rng.below(4) {
+        0 => (format!("{l}.f"), format!("({e}).foo")),
+        1 => (format!("{l}.m()"), format!("({e}).bar(a)")),
+        2 => (format!("{l}.m<>()"), format!("({e}).bar<int>(a)")),
+        _ => (format!("{l}()"), format!("({e})(a)")),
+      }
+    }
+    10 => {
+      let (cl, c) = opchain(rng, depth - 1);
+      let (tl, t) = opchain(rng, depth - 1);
+      (format!("if({cl},{tl})"), format!("(if {c} {{ {t} }} else {{ b }})"))
+    }
+    _ => {
+      let (l, e) = opchain(rng, depth - 1);
+      match rng.below(3) {
+        0 => (format!("lam({l})"), format!("((p) -> {e})")),
+        1 => (format!("tup({l})"), format!("(a, {e})")),
+        _ => (format!("match({l})"), format!("(match {e} {{ A -> a, _ -> b }})")),
+      }
+    }
+  }
+}
 
 pub const FILL: &[&str] = &["a", "b", "1", "g(k)", "\"t\""];
 
